@@ -11,7 +11,7 @@ from mc.ref import lang
 PID = 'C16'
 LEVEL = 'fault_enumeration'
 RULE = ('bodies: every concatenation of <=n pieces from {True,true,TRUE,'
-        'False,",\',space,newline,1,T,rue,null,0xff,4kB of True} x 10 status '
+        'False,",\',space,newline,1,T,rue,null,0xff,4kB of True,Tr"ue} x 10 status '
         'codes x http/https x both remote_content_type settings x 3 reply '
         'content-type headers; faults: Timeout, ConnectTimeout, ReadTimeout, '
         'ConnectionError, SSLError, ChunkedEncodingError raised by the '
@@ -30,7 +30,7 @@ ASSUMPTIONS = ['requests is cut at HTTPAdapter.send; a real requests.Response '
                'reply bytes are ASCII/0xff only (no BOMs, no exotic charsets)']
 
 PIECES = [b'True', b'true', b'TRUE', b'False', b'"', b"'", b' ', b'\n', b'1',
-          b'T', b'rue', b'null', b'\xff', b'True' * 1024]
+          b'T', b'rue', b'null', b'\xff', b'True' * 1024, b'Tr"ue']
 STATUS = [200, 201, 204, 301, 400, 401, 403, 404, 500, 503]
 HEADERS = [{}, {'Content-Type': 'text/plain; charset=utf-8'},
            {'Content-Type': 'application/json'}]
